@@ -45,6 +45,8 @@ EXC = {'IndexError': 'EIndex', 'ValueError': 'EValue', 'NotImplementedError': 'E
 FSS = [[36000, 1], [45, 1], [3515625, 2]]
 K_EPOCH_KEPT = 'getitem:3d-int-on-channel-axis-keeps-epoch-axis'
 K_PAIRED = 'getitem:two-list-or-mask-indices-are-paired'
+K_NPINT = 'getitem:numpy-integer-index-not-recognised'
+K_PDMASK = 'getitem:annotated-array-used-as-index-skips-fixup'
 
 
 # --------------------------------------------------------------------------- building inputs
@@ -107,6 +109,8 @@ def _lab_id(lab, obj):
 
 def _md_obj(lab, ident):
     """identifiers >= 1000 denote the entry ident-1000 with ONE nested value changed"""
+    if ident == -2:
+        return {}
     k = ident - 1000 if ident >= 1000 else ident
     d = {'id': k} if not lab else {'id': k, 'tag': PALETTES[lab][(k - 90) % 8], 'n': [k, str(k), (k,)], 'z': 0}
     if ident >= 1000:
@@ -115,11 +119,36 @@ def _md_obj(lab, ident):
 
 
 def _md_id(lab, obj):
+    if type(obj) is dict and not obj:
+        return -2
     if isinstance(obj, dict) and type(obj.get('id')) is int:
         for ident in (obj['id'], obj['id'] + 1000):
             if _same(obj, _md_obj(lab, ident)):
                 return ident
     return BAD
+
+
+def _kinds(kd, d, fs, s0):
+    """unusual-but-legal argument kinds: kd = {'dt': dtype, 'ro': read-only, 'lst': nested list, 'fs': 'int'|'np'|'f32',
+    's0': 'np'|'float'}"""
+    if kd.get('dt'):
+        d = d.astype(kd['dt'])
+    if kd.get('ro'):
+        d.setflags(write=False)
+    if kd.get('lst') and d.size:          # (an empty nested list would lose the shape)
+        d = d.tolist()
+    f = fs[0] / fs[1]
+    if kd.get('fs') == 'int' and fs[1] == 1:
+        f = int(fs[0])
+    elif kd.get('fs') == 'np':
+        f = np.float64(f)
+    elif kd.get('fs') == 'f32' and float(np.float32(f)) == f:
+        f = np.float32(f)
+    if kd.get('s0') == 'np':
+        s0 = np.int64(s0)
+    elif kd.get('s0') == 'float':
+        s0 = float(s0)
+    return d, f, s0
 
 
 def _mk(case):
@@ -130,29 +159,61 @@ def _mk(case):
     ch, md = _labels(shape, case.get('cn', False))
     ch = [_lab_obj(lab, c) for c in ch] if isinstance(ch, list) else (None if ch is None else _lab_obj(lab, ch))
     md = [_md_obj(lab, m['id']) for m in md] if isinstance(md, list) else _md_obj(lab, md['id'])
-    return PipelineData(d, fs=case['fs'][0] / case['fs'][1], s0=case['s0'], channel=ch, metadata=md)
+    d, f, s0 = _kinds(case.get('kd', {}), d, case['fs'], case['s0'])
+    return PipelineData(d, fs=f, s0=s0, channel=ch, metadata=md)
+
+
+def _mk_new(case):
+    """constructor as called by users: channel / metadata omitted, given, or of the wrong length; positional or keyword"""
+    from psiaudio.pipeline import PipelineData
+    shape = tuple(case['shape'])
+    lab = case.get('lab', 0)
+    d = np.arange(int(np.prod(shape)), dtype=float).reshape(shape)
+    d, f, s0 = _kinds(case.get('kd', {}), d, case['fs'], case['s0'])
+    kw = {}
+    if case['ch'] is not None:
+        kw['channel'] = [_lab_obj(lab, c) for c in case['ch']] if isinstance(case['ch'], list) else _lab_obj(lab, case['ch'])
+        if case.get('tup'):
+            kw['channel'] = tuple(kw['channel'])
+    if case['md'] is not None:
+        kw['metadata'] = _md_obj(lab, case['md'][1]) if case['md'][0] == 'D' else [_md_obj(lab, k) for k in case['md'][1]]
+    if case.get('s0_default'):
+        return PipelineData(d, f, **kw)
+    if case.get('positional'):
+        return PipelineData(d, f, s0, kw.get('channel'), kw.get('metadata'))
+    return PipelineData(d, fs=f, s0=s0, **kw)
 
 
 def _mk_lit(p, lab=0):
     from psiaudio.pipeline import PipelineData
     d = np.array(p['vals'], dtype=float).reshape(p['shape'])
+    if p.get('plain'):
+        return d.astype(p['kd']['dt']) if p.get('kd', {}).get('dt') else d
     ch = p['ch']
     ch = [_lab_obj(lab, c) for c in ch] if isinstance(ch, list) else _lab_obj(lab, ch)
     md = _md_obj(lab, p['md'][1]) if p['md'][0] == 'D' else [_md_obj(lab, k) for k in p['md'][1]]
-    return PipelineData(d, fs=p['fs'][0] / p['fs'][1], s0=p['s0'], channel=ch, metadata=md)
+    d, f, s0 = _kinds(p.get('kd', {}), d, p['fs'], p['s0'])
+    return PipelineData(d, fs=f, s0=s0, channel=ch, metadata=md)
 
 
-def _pyitem(it):
+def _pyitem(it, npk=None):
+    """npk: 'i' ints as np.int64, 's' slice bounds as NumPy ints, 't' lists as tuples-free variants (list of np.int64)"""
+    npk = npk or ''
     k = it[0]
     if k == 'i':
-        return it[1]
+        return np.int64(it[1]) if 'i' in npk else it[1]
     if k == 's':
+        if 's' in npk:
+            return slice(*[None if v is None else np.int32(v) for v in it[1:4]])
         return slice(it[1], it[2], it[3])
     if k == 'l':
-        return list(it[1])
+        return [np.int64(z) for z in it[1]] if 't' in npk else list(it[1])
     if k == 'a':                      # 1-D integer ndarray (only generated inside a tuple; NumPy and the model read it as the list)
         return np.array(it[1], dtype=int)
     if k == 'm':
+        if it[2] == 'pd':             # a boolean mask that is itself an annotated array (e.g. the result of a comparison)
+            from psiaudio.pipeline import PipelineData
+            return PipelineData(np.array(it[1], dtype=bool), fs=1.0)
         return np.array(it[1], dtype=bool) if it[2] else [bool(b) for b in it[1]]
     if k == 'e':
         return Ellipsis
@@ -161,8 +222,8 @@ def _pyitem(it):
     raise KeyError(k)
 
 
-def _pyindex(idx):
-    items = [_pyitem(i) for i in idx['items']]
+def _pyindex(idx, npk=None):
+    items = [_pyitem(i, npk) for i in idx['items']]
     return items[0] if idx['sole'] else tuple(items)
 
 
@@ -210,59 +271,132 @@ def _catch(f):
     try:
         return f()
     except (IndexError, ValueError, NotImplementedError, TypeError, KeyError, UnboundLocalError) as e:
-        return {'exc': type(e).__name__, 'msg': str(e)[:120]}
+        name = type(e).__name__
+        if name not in EXC:              # e.g. numpy AxisError (a ValueError and an IndexError)
+            name = next(b.__name__ for b in (ValueError, IndexError, TypeError, KeyError) if isinstance(e, b))
+        return {'exc': name, 'msg': str(e)[:120]}
+
+
+def _obs_any(r, lab):
+    from psiaudio.pipeline import PipelineData
+    if isinstance(r, np.ndarray) and not isinstance(r, PipelineData):
+        return {'plain': True, 'shape': [int(v) for v in r.shape], 'vals': [int(v) for v in r.ravel()]}
+    return _obs(r, lab)
+
+
+def _scribble(a):
+    """the caller writes into the annotation containers of an array it owns (lists only: dict entries are shared by design)"""
+    if isinstance(a.channel, list):
+        a.channel.append('scribble')
+        a.channel[0] = 'scribble0'
+    if isinstance(a.metadata, list):
+        a.metadata.append({'scribble': 1})
+        a.metadata[0] = {'scribble': 0}
+
+
+def _alias(src, res_, lab):
+    """annotations of a result and of its source do not share containers: writing into one leaves the other alone"""
+    from psiaudio.pipeline import PipelineData
+    if not (isinstance(src, PipelineData) and isinstance(res_, PipelineData)) or src is res_:
+        return None
+    o_src, o_res = _obs(src, lab), _obs(res_, lab)
+    _scribble(res_)
+    if _obs(src, lab) != o_src:
+        return 'writing into the channel / metadata list of the result changed the source array'
+    o_res = _obs(res_, lab)
+    _scribble(src)
+    if _obs(res_, lab) != o_res:
+        return 'writing into the channel / metadata list of the source changed the result'
+    return None
+
+
+def _chain(x, ixs, lab, npk, steps):
+    """apply the index expressions one after the other, recording the observables of every step"""
+    src = None
+    for idx in ixs:
+        r = _catch(lambda: x[_pyindex(idx, npk)])
+        if isinstance(r, dict):
+            steps.append(r)
+            return None, None
+        o = _obs(r, lab)
+        steps.append(o)
+        if 'scalar' in o:
+            return None, None
+        if lab and _wf(o):
+            # a malformed intermediate (recorded finding) carrying e.g. a tuple or string as its single label: what
+            # indexing does to that label next depends on the label's own type; the identifier model stops here
+            return None, None
+        src, x = x, r
+    return src, x
+
+
+def _do_op(x, o):
+    import copy as _copy
+    from psiaudio.pipeline import PipelineData
+    f = {'add': lambda: x + o[1], 'radd': lambda: o[1] + x, 'mul': lambda: x * o[1], 'neg': lambda: -x,
+         'abs': lambda: np.abs(x - o[1]) if len(o) > 1 else np.abs(x), 'copy': lambda: x.copy(),
+         'copy2': lambda: _copy.copy(x), 'deepcopy': lambda: _copy.deepcopy(x),
+         'astype': lambda: x.astype(o[1]), 'gt': lambda: x > o[1], 'rsub': lambda: o[1] - x,
+         'selfadd': lambda: x + x, 'ndadd': lambda: np.full(x.shape, float(o[1])) + x,
+         'iadd': lambda: _iadd(x, o[1]),
+         'addnp': lambda: x + np.float64(o[1]), 'addint': lambda: x + int(o[1]), 'addnpi': lambda: x + np.int16(o[1]),
+         'mulnp': lambda: np.float32(o[1]) * x, 'positive': lambda: +x, 'square': lambda: np.multiply(x, x),
+         # the other operand is an annotated array with OTHER annotations: the result keeps those of the left operand
+         'pdadd': lambda: x + PipelineData(np.full(x.shape, float(o[1])), fs=7.0, s0=123),
+         'view': lambda: x.view(), 'fullslice': lambda: x[...] + 0}[o[0]]
+    return f()
 
 
 def impl(case):
     from psiaudio.pipeline import concat
     k = case['k']
     lab = case.get('lab', 0)
+    npk = case.get('npk')
     if k == 'get':
         x = _mk(case)
         steps = [_obs(x, lab)]
-        for idx in case['ixs']:
-            r = _catch(lambda: x[_pyindex(idx)])
-            if isinstance(r, dict):
-                steps.append(r)
-                break
-            o = _obs(r, lab)
-            steps.append(o)
-            if 'scalar' in o:
-                break
-            if lab and _wf(o):
-                # a malformed intermediate (recorded finding) carrying e.g. a tuple or string as its single label: what
-                # indexing does to that label next depends on the label's own type; the identifier model stops here
-                break
-            x = r
-        return {'steps': steps}
+        src, r = _chain(x, case['ixs'], lab, npk, steps)
+        return {'steps': steps, 'alias': _alias(src, r, lab) if src is not None else None}
+    if k == 'new':
+        x = _catch(lambda: _mk_new(case))
+        if isinstance(x, dict):
+            return {'steps': [x], 'alias': None}
+        steps = [_obs(x, lab)]
+        src, r = _chain(x, case.get('ixs', []), lab, npk, steps)
+        return {'steps': steps, 'alias': _alias(src, r, lab) if src is not None else None}
     if k == 'cat':
         ps = [_mk_lit(p, lab) for p in case['pieces']]
-        r = _catch(lambda: concat(ps, axis=case['axis']))
-        return {'out': r if isinstance(r, dict) else _obs(r, lab)}
+        before = [_obs_any(p, lab) for p in ps]
+        arg = tuple(ps) if case.get('tuple') else ps
+        r = _catch(lambda: concat(arg, axis=case['axis']) if 'axis' in case else concat(arg))
+        out = r if isinstance(r, dict) and 'exc' in r else _obs_any(r, lab)
+        alias = None
+        if 'exc' not in out and not out.get('plain'):
+            _scribble(r)
+            if [_obs_any(p, lab) for p in ps] != before:
+                alias = 'writing into the channel / metadata list of the concatenated array changed a piece'
+        return {'out': out, 'alias': alias}
     if k == 'slicecat':
         x = _mk(case)
         ps = []
         for ixs in case['ixss']:
             y = x
             for idx in ixs:
-                y = _catch(lambda: y[_pyindex(idx)])
+                y = _catch(lambda: y[_pyindex(idx, npk)])
                 if isinstance(y, dict):
                     return {'out': y, 'pieces': [_obs(p, lab) for p in ps], 'x': _obs(x, lab), 'slicing_failed': _show(idx)}
             ps.append(y)
         r = _catch(lambda: concat(ps, axis=case['axis']))
         return {'out': r if isinstance(r, dict) else _obs(r, lab), 'pieces': [_obs(p, lab) for p in ps], 'x': _obs(x, lab)}
     if k == 'op':
-        import copy as _copy
         x = _mk(case)
-        o = case['op']
-        f = {'add': lambda: x + o[1], 'radd': lambda: o[1] + x, 'mul': lambda: x * o[1], 'neg': lambda: -x,
-             'abs': lambda: np.abs(x - o[1]) if len(o) > 1 else np.abs(x), 'copy': lambda: x.copy(),
-             'copy2': lambda: _copy.copy(x), 'deepcopy': lambda: _copy.deepcopy(x),
-             'astype': lambda: x.astype(o[1]), 'gt': lambda: x > o[1], 'rsub': lambda: o[1] - x,
-             'selfadd': lambda: x + x, 'ndadd': lambda: np.full(x.shape, float(o[1])) + x,
-             'iadd': lambda: _iadd(x, o[1])}[o[0]]
-        r = f()
-        return {'out': _obs(r, lab)}
+        r = _do_op(x, case['op'])
+        steps = [_obs(r, lab)]
+        alias = _alias(x, r, lab) if not case.get('ixs') else None
+        if case.get('ixs'):
+            src, r2 = _chain(r, case['ixs'], lab, npk, steps)
+            alias = _alias(src, r2, lab) if src is not None else None
+        return {'out': steps[0], 'steps': steps, 'alias': alias}
     raise KeyError(k)
 
 
@@ -323,25 +457,62 @@ DIM = {-1: 'DTime', -2: 'DChan', -3: 'DEpoch', 'time': 'DTime', 'channel': 'DCha
 REP = 'false' if os.environ.get('C11_UNREPAIRED') else 'true'
 
 
+def _uop(o):
+    return {'add': lambda: f'(UAdd {zlit(o[1])})', 'radd': lambda: f'(UAdd {zlit(o[1])})', 'iadd': lambda: f'(UAdd {zlit(o[1])})',
+            'ndadd': lambda: f'(UAdd {zlit(o[1])})', 'mul': lambda: f'(UMul {zlit(o[1])})', 'neg': lambda: 'UNeg',
+            'abs': lambda: 'UAbs' if len(o) == 1 else None, 'copy': lambda: 'UCopy', 'copy2': lambda: 'UCopy',
+            'deepcopy': lambda: 'UCopy', 'astype': lambda: '(UGt 0)' if o[1] == 'bool' else 'UCopy', 'gt': lambda: f'(UGt {zlit(o[1])})',
+            'rsub': lambda: f'(URsub {zlit(o[1])})', 'selfadd': lambda: '(UMul 2)',
+            'addnp': lambda: f'(UAdd {zlit(o[1])})', 'addint': lambda: f'(UAdd {zlit(o[1])})', 'addnpi': lambda: f'(UAdd {zlit(o[1])})',
+            'mulnp': lambda: f'(UMul {zlit(o[1])})', 'positive': lambda: 'UCopy', 'pdadd': lambda: f'(UAdd {zlit(o[1])})',
+            'view': lambda: 'UCopy', 'fullslice': lambda: 'UCopy'}[o[0]]()
+
+
+def _optlab(l):
+    return 'None' if l is None else f'(Some {_lab(l)})'
+
+
+def _piece(p):
+    plain = 'true' if p.get('plain') else 'false'
+    if p.get('plain'):
+        return f'(mk_piece true {zlist(p["shape"])} {zlist(p["vals"])} 0 1 1 (LOne 0) (LOne 0))'
+    return (f'(mk_piece {plain} {zlist(p["shape"])} {zlist(p["vals"])} {zlit(p["s0"])} {zlit(p["fs"][0])} {zlit(p["fs"][1])} '
+            f'{_lab(p["ch"])} {_md(p["md"])})')
+
+
 def term(case, res):
     k = case['k']
     if k == 'get':
         n = len(res['steps']) - 1
         ixs = listlit([_index(i) for i in case['ixs'][:n]])
         return f'check_getitems_gen {REP} {_x(case)} {ixs} {_res(res["steps"][-1])}'
+    if k == 'new':
+        n = len(res['steps']) - 1
+        ixs = listlit([_index(i) for i in case.get('ixs', [])[:n]])
+        nvals = int(np.prod(case['shape']))
+        s0 = 0 if case.get('s0_default') else case['s0']
+        md = None if case['md'] is None else (f'(Some {_md(case["md"])})')
+        return (f'check_new {zlist(case["shape"])} {zlist(range(nvals))} {zlit(s0)} {zlit(case["fs"][0])} {zlit(case["fs"][1])} '
+                f'{_optlab(case["ch"])} {md} {ixs} {_res(res["steps"][-1])}')
     if k == 'cat':
+        if case.get('any'):
+            ax = case.get('axis', -1)
+            dm = f'(Some {DIM[ax]})' if (isinstance(ax, (int, str)) and not isinstance(ax, bool) and ax in DIM) else 'None'
+            o = res['out']
+            if o.get('plain'):
+                got = f'(mkv {zlist(o["shape"])} {zlist(o["vals"])} 0 1 1 (LOne 0) (LOne 0))'
+                return f'check_concat_any {dm} {listlit([_piece(p) for p in case["pieces"]])} true {got}'
+            return f'check_concat_any {dm} {listlit([_piece(p) for p in case["pieces"]])} false {_res(o)}'
         return f'check_concat_lit {listlit([_lit(p) for p in case["pieces"]])} {DIM[case["axis"]]} {_res(res["out"])}'
     if k == 'slicecat':
         ixss = listlit([listlit([_index(i) for i in ixs]) for ixs in case['ixss']])
         return f'check_concat {_x(case)} {ixss} {DIM[case["axis"]]} {_res(res["out"])}'
     if k == 'op':
-        o = case['op']
-        u = {'add': lambda: f'(UAdd {zlit(o[1])})', 'radd': lambda: f'(UAdd {zlit(o[1])})', 'iadd': lambda: f'(UAdd {zlit(o[1])})',
-             'ndadd': lambda: f'(UAdd {zlit(o[1])})', 'mul': lambda: f'(UMul {zlit(o[1])})', 'neg': lambda: 'UNeg',
-             'abs': lambda: 'UAbs' if len(o) == 1 else None, 'copy': lambda: 'UCopy', 'copy2': lambda: 'UCopy',
-             'deepcopy': lambda: 'UCopy', 'astype': lambda: 'UCopy', 'gt': lambda: f'(UGt {zlit(o[1])})',
-             'rsub': lambda: f'(URsub {zlit(o[1])})', 'selfadd': lambda: '(UMul 2)'}[o[0]]()
-        return f'check_op {_x(case)} {u} {_res(res["out"])}'
+        if case.get('ixs'):
+            n = len(res['steps']) - 1
+            ixs = listlit([_index(i) for i in case['ixs'][:n]])
+            return f'check_op_getitems {_x(case)} {_uop(case["op"])} {ixs} {_res(res["steps"][-1])}'
+        return f'check_op {_x(case)} {_uop(case["op"])} {_res(res["out"])}'
     raise KeyError(k)
 
 
@@ -384,6 +555,10 @@ def _wf(o):
         msgs.append(f'{nd}-D result carries a metadata list of {len(o["md"][1])} entries (n_epochs is None)')
     if not o.get('t_ok', True):
         msgs.append('.t is not (s0 + arange(n_time)) / fs')
+    if 'n_time' in o:
+        want = (o['shape'][-1], 1 if nd == 1 else o['shape'][-2], None if nd < 3 else o['shape'][-3])
+        if (o['n_time'], o['n_channels'], o['n_epochs']) != want:
+            msgs.append(f'(n_time, n_channels, n_epochs) = {(o["n_time"], o["n_channels"], o["n_epochs"])} for shape {o["shape"]}')
     return msgs
 
 
@@ -442,12 +617,16 @@ def _expected(inp, idx):
     return exp
 
 
-def _judge_step(inp, idx, got):
+def _judge_step(inp, idx, got, npk=None):
     """returns (message, key) or None"""
     exp = _expected(inp, idx)
     if exp is None:
         return None
     key = None
+    pdmask = any(it[0] == 'm' and it[2] == 'pd' for it in idx['items'])
+    npint = 'i' in (npk or '') and any(it[0] == 'i' for it in idx['items'])
+    if 'exc' in got and npint and got['exc'] in ('TypeError', 'ValueError'):
+        return (f'x{inp["shape"]}[{_show(idx)}] with NumPy integers as ints raised {got["exc"]} ({got["msg"]})', K_NPINT)
     if exp['nadv'] >= 2:
         key = K_PAIRED
     elif exp['keepE'] and exp['dropC']:
@@ -482,6 +661,8 @@ def _judge_step(inp, idx, got):
     wfm = [m for m in _wf(got) if not m.startswith('.t is not')]
     if core or (sel and key != K_PAIRED):
         key = None
+    if pdmask and not core and (sel or wfm) and got['shape'] == exp['shape'] and got['vals'] == exp['vals'] and key is None:
+        key = K_PDMASK          # data selected, labels / metadata left as they were
     msgs = core + sel + wfm
     if msgs:
         return (f'{what}: ' + '; '.join(msgs), key)
@@ -500,7 +681,7 @@ def _show(idx):
         if k == 'a':
             return f'array({it[1]})'
         if k == 'm':
-            return ('array(' if it[2] else '') + str([bool(b) for b in it[1]]) + (')' if it[2] else '')
+            return ('PipelineData(' if it[2] == 'pd' else 'array(' if it[2] else '') + str([bool(b) for b in it[1]]) + (')' if it[2] else '')
         return '...' if k == 'e' else 'None'
     s = ', '.join(one(i) for i in idx['items'])
     return s if idx['sole'] else (s + (',' if len(idx['items']) == 1 else '') if idx['items'] else '()')
@@ -510,20 +691,59 @@ def _same_ann(a, b):
     return all(a[f] == b[f] for f in ('shape', 's0', 'fs', 'ch', 'md'))
 
 
+def _judge_chain(steps, ixs, npk):
+    for i, idx in enumerate(ixs):
+        if i + 1 >= len(steps):
+            break
+        inp, got = steps[i], steps[i + 1]
+        if 'shape' not in inp or _wf(inp):
+            break
+        j = _judge_step(inp, idx, got, npk)
+        if j:
+            return j
+    return None
+
+
+def _judge_new(case, first):
+    """the constructor: defaults [None]*n_channels / {} / [{}]*n_epochs; label and metadata counts are checked"""
+    shape = case['shape']
+    nd = len(shape)
+    bad_ch = nd > 1 and isinstance(case['ch'], list) and len(case['ch']) != shape[-2]
+    bad_md = nd > 2 and case['md'] is not None and (case['md'][0] != 'L' or len(case['md'][1]) != shape[0])
+    what = f'PipelineData(shape {shape}, channel={case["ch"]}, metadata={case["md"]})'
+    if bad_ch or bad_md:
+        return None if 'exc' in first else (f'{what} accepted a label / metadata count that differs from the axis length', None)
+    if nd > 1 and case['ch'] is not None and not isinstance(case['ch'], list):
+        return None                 # a scalar label for several channels: not part of the claim
+    if 'exc' in first:
+        return (f'{what} raised {first["exc"]}: {first["msg"]}', None)
+    want_ch = case['ch'] if case['ch'] is not None else (-1 if nd == 1 else [-1] * shape[-2])
+    want_md = case['md'] if case['md'] is not None else (['D', -2] if nd < 3 else ['L', [-2] * shape[0]])
+    want_md = [want_md[0], want_md[1]]
+    msgs = []
+    if first['ch'] != want_ch:
+        msgs.append(f'channel {first["ch"]} instead of {want_ch}')
+    if first['md'] != want_md:
+        msgs.append(f'metadata {first["md"]} instead of {want_md}')
+    if first['s0'] != (0 if case.get('s0_default') else case['s0']) or Fraction(*first['fs']) != Fraction(*case['fs']):
+        msgs.append(f's0 / fs {first["s0"]}, {first["fs"]}')
+    if first['shape'] != list(shape) or first['vals'] != list(range(int(np.prod(shape)))):
+        msgs.append('data changed')
+    msgs += _wf(first) + first.get('bad', [])
+    return (f'{what}: ' + '; '.join(msgs), None) if msgs else None
+
+
 def _judge(case, res):
     k = case['k']
+    if res.get('alias'):
+        return (f'{k} {case.get("ixs", case.get("op", ""))!r}: {res["alias"]}', None)
     if k == 'get':
-        steps = res['steps']
-        for i, idx in enumerate(case['ixs']):
-            if i + 1 >= len(steps):
-                break
-            inp, got = steps[i], steps[i + 1]
-            if 'shape' not in inp or _wf(inp):
-                break
-            j = _judge_step(inp, idx, got)
-            if j:
-                return j
-        return None
+        return _judge_chain(res['steps'], case['ixs'], case.get('npk'))
+    if k == 'new':
+        j = _judge_new(case, res['steps'][0])
+        return j or _judge_chain(res['steps'], case.get('ixs', []), case.get('npk'))
+    if k == 'cat' and case.get('any'):
+        return _judge_cat_any(case, res['out'])
     if k == 'cat':
         return _judge_cat(case['pieces'], case['axis'], res['out'], case.get('expect'))
     if k == 'slicecat':
@@ -546,7 +766,31 @@ def _judge(case, res):
             return (f'{case["op"]}: ' + '; '.join(o['bad']), None)
         if not _same_ann(o, x):
             return (f'{case["op"]} changed the annotations: {[(f, x[f], o[f]) for f in ("shape", "s0", "fs", "ch", "md") if x[f] != o[f]]}', None)
+        m = _wf(o)
+        if m:
+            return (f'{case["op"]}: ' + '; '.join(m), None)
+        return _judge_chain(res.get('steps', [o]), case.get('ixs', []), case.get('npk'))
+
+
+def _judge_cat_any(case, out):
+    pieces = case['pieces']
+    ax = case.get('axis', -1)
+    valid_axis = (not isinstance(ax, bool)) and isinstance(ax, (int, str)) and ax in DIM
+    plain = [bool(p.get('plain')) for p in pieces]
+    if not valid_axis or not pieces or (any(plain) and not all(plain)):
+        why = 'an unsupported axis' if not valid_axis else 'no pieces' if not pieces else 'plain and annotated pieces mixed'
+        return None if 'exc' in out else (f'concat with {why} was not refused', None)
+    if all(plain):
+        arrs = [np.array(p['vals'], dtype=np.int64).reshape(p['shape']) for p in pieces]
+        a = ax if isinstance(ax, int) else {'time': -1, 'channel': -2, 'epoch': -3}[ax]
+        try:
+            want = np.concatenate(arrs, axis=a)
+        except ValueError:
+            return None if 'exc' in out else ('concat of plain arrays of incompatible shapes was not refused', None)
+        if 'exc' in out or not out.get('plain') or out['shape'] != list(want.shape) or out['vals'] != [int(v) for v in want.ravel()]:
+            return (f'concat of plain arrays along {ax}: got { {k: v for k, v in out.items() if k != "vals"} } instead of np.concatenate', None)
         return None
+    return _judge_cat(pieces, ax, out, case.get('expect'))
 
 
 def _judge_cat(pieces, axis, out, expect):
@@ -626,6 +870,8 @@ def key(case, res):
 def nontrivial(case, res):
     if 'raised' in res:
         return True
+    if case['k'] == 'new':
+        return True
     if case['k'] == 'get':
         s = res['steps']
         return 'exc' in s[-1] or 'scalar' in s[-1] or not (_same_ann(s[0], s[-1]) and s[0]['vals'] == s[-1]['vals'])
@@ -633,6 +879,10 @@ def nontrivial(case, res):
 
 
 KNOWN_WITNESSES = {
+    K_NPINT: {'k': 'get', 'shape': [2, 5], 's0': 0, 'fs': [36000, 1], 'npk': 'i',
+              'ixs': [{'sole': True, 'items': [['i', 1]]}]},
+    K_PDMASK: {'k': 'get', 'shape': [3, 2, 4], 's0': 0, 'fs': [36000, 1],
+               'ixs': [{'sole': True, 'items': [['m', [1, 0, 1], 'pd']]}]},
     K_EPOCH_KEPT: {'k': 'get', 'shape': [2, 3, 4], 's0': 0, 'fs': [36000, 1],
                    'ixs': [{'sole': False, 'items': [['s', None, None, None], ['i', 0]]}]},
     K_PAIRED: {'k': 'get', 'shape': [3, 2, 4], 's0': 0, 'fs': [36000, 1],
@@ -989,6 +1239,119 @@ def _reject_cases(tier, rng):
                 yield {'k': 'cat', 'axis': axis, 'pieces': [a, dict(b, fs=_exact(g))], 'expect': 'fs', 'lab': lab}
 
 
+def _audit_cases(tier, rng):
+    """coverage audit of the public surface: argument kinds, constructor, results of operations re-indexed, concat as called"""
+    quick = tier == 'quick'
+    full = ['s', None, None, None]
+
+    def pool(shape):
+        nd, n = len(shape), shape[-1]
+        t = [['s', 1, None, None], ['s', -n - 2, 3, None], ['s', None, None, 2], ['s', 2, None, 3], ['s', -2, None, None], full]
+        if nd == 1:
+            return [[x] for x in t] + [[['n'], t[0]], [['e'], t[4]]]
+        c = shape[-2]
+        citems = [['i', 0], ['i', -1], ['l', [c - 1, 0]], ['a', [0, c - 1]], ['m', [1] + [0] * (c - 1), True],
+                  ['m', [0] * (c - 1) + [1], False], ['s', 1, None, None], ['s', None, None, 2]]
+        if nd == 2:
+            return [[ci, ti] for ci in citems for ti in t[:3]] + [[ci] for ci in citems] + [[['n'], ['l', [0]], t[1]]]
+        e = shape[0]
+        eitems = [['i', -1], ['l', [e - 1, 0]], ['m', [1] + [0] * (e - 1), True], ['s', 1, None, None]]
+        out = [[ei] for ei in eitems] + [[full, ci, t[0]] for ci in citems if ci[0] != 'i'] + [[ei, full, t[1]] for ei in eitems]
+        out += [[['i', 0], ci, t[2]] for ci in citems] + [[['e'], t[4]]]
+        return out
+    kds = [{'dt': 'int64'}, {'dt': 'int16'}, {'dt': 'uint8'}, {'dt': 'float32'}, {'ro': True}, {'lst': True}, {'fs': 'int'},
+           {'fs': 'np'}, {'fs': 'f32'}, {'s0': 'np'}, {'s0': 'float'}, {'dt': 'int32', 'fs': 'int', 's0': 'np', 'ro': True}]
+    shapes = [(5,), (2, 5), (3, 2, 4)]
+    # (h) argument kinds of the constructor and of the index
+    for shape in shapes:
+        pl = pool(shape)
+        for j, kd in enumerate(kds):
+            picks = pl if not quick else [pl[(j * 5 + q * 3) % len(pl)] for q in range(5)]
+            for items in picks:
+                c = _get(shape, [{'sole': False, 'items': items}], s0=[-5, 0, 7][j % 3], fs=FSS[j % 3])
+                c['kd'] = kd
+                yield c
+        for j, items in enumerate(pl):
+            for npk in ('s', 't', 'st'):
+                if quick and (j + len(npk)) % 3:
+                    continue
+                c = _get(shape, [{'sole': False, 'items': items}], s0=-5, fs=FSS[j % 3])
+                c['npk'] = npk
+                yield c
+            # NumPy integers as ints (bare and inside a tuple), a PipelineData as boolean mask: see known_findings.txt
+            if any(it[0] == 'i' for it in items) and (not quick or j % 2 == 0):
+                c = _get(shape, [{'sole': len(items) == 1, 'items': items}], s0=3)
+                c['npk'] = 'i'
+                yield c
+            if any(it[0] == 'm' for it in items) and len(shape) > 1:
+                it2 = [([x[0], x[1], 'pd'] if x[0] == 'm' else x) for x in items]
+                yield _get(shape, [{'sole': len(items) == 1, 'items': it2}], s0=3)
+                if len(items) == 1:
+                    yield _get(shape, [{'sole': True, 'items': [['m', [1] * shape[0], 'pd']]}], s0=3)
+    # (i) the constructor: omitted / given / miscounted labels and metadata, positional and keyword, default s0
+    for shape in [(4,), (2, 4), (1, 3), (3, 2, 4), (1, 1, 3), (0, 2, 3)]:
+        nd = len(shape)
+        c_ok = None if nd == 1 else [70 + i for i in range(shape[-2])]
+        chs = [None, (70 if nd == 1 else c_ok)] + ([] if nd == 1 else [c_ok[:-1], c_ok + [79], []])
+        m_ok = ['D', 90] if nd < 3 else ['L', [90 + i for i in range(shape[0])]]
+        mds = [None, m_ok] + ([] if nd < 3 else [['L', m_ok[1][:-1]], ['L', m_ok[1] + [99]]])
+        pl = pool(shape) if 0 not in shape else [[full]]
+        for a, ch in enumerate(chs):
+            for b, md in enumerate(mds):
+                for var in range(3):
+                    c = {'k': 'new', 'shape': list(shape), 's0': [-5, 3, 0][var], 'fs': FSS[(a + b) % 3], 'ch': ch, 'md': md,
+                         'ixs': [{'sole': False, 'items': pl[(a * 7 + b * 3 + var) % len(pl)]}]}
+                    if ch is None or md is None:
+                        c['lab'] = 0            # the defaults None / {} are identifiers of their own
+                    if var == 1:
+                        c['positional'] = True
+                    if var == 2:
+                        c['s0_default'] = True
+                        c['kd'] = kds[(a + b) % len(kds)]
+                    yield c
+    # (j) results of operations (bool / integer dtypes, NumPy-scalar operands) indexed again
+    ops = [['gt', 2], ['astype', 'bool'], ['astype', 'int16'], ['astype', 'uint8'], ['astype', 'float32'], ['addnp', 3], ['addint', 2],
+           ['addnpi', 4], ['mulnp', 2], ['positive'], ['pdadd', 5], ['view'], ['fullslice'], ['neg'], ['copy'], ['deepcopy']]
+    for shape in shapes:
+        pl = pool(shape)
+        for j, o in enumerate(ops):
+            yield {'k': 'op', 'shape': list(shape), 's0': [-5, 7][j % 2], 'fs': FSS[j % 3], 'op': o}
+            for q in range(2 if quick else 6):
+                yield {'k': 'op', 'shape': list(shape), 's0': [-5, 7][j % 2], 'fs': FSS[j % 3], 'op': o,
+                       'ixs': [{'sole': False, 'items': pl[(j * 3 + q * 5) % len(pl)]}]}
+    # (k) concat as called: axis names, no pieces, one piece, plain ndarrays, plain mixed with annotated, tuple of pieces, kinds
+    def plain(shape, off=0, dt=None):
+        q = {'plain': True, 'shape': list(shape), 'vals': [off + v for v in range(int(np.prod(shape)))]}
+        if dt:
+            q['kd'] = {'dt': dt}
+        return q
+    for shape in [(4,), (2, 3), (2, 2, 3)]:
+        ann = _split_pieces(shape, [0, 1, shape[-1]], -1, -3, FSS[0])
+        for ax in (0, 1, 2, -4, 'foo', 'Time', None, 1.5):
+            yield {'k': 'cat', 'any': True, 'axis': ax, 'pieces': ann}
+            yield {'k': 'cat', 'any': True, 'axis': ax, 'pieces': [plain(shape), plain(shape, 50)]}
+        for ax in (-1, -2, -3, 'time', 'channel', 'epoch'):
+            yield {'k': 'cat', 'any': True, 'axis': ax, 'pieces': []}
+            yield {'k': 'cat', 'any': True, 'axis': ax, 'pieces': [plain(shape), plain(shape, 50)]}
+            yield {'k': 'cat', 'any': True, 'axis': ax, 'pieces': [plain(shape, 0, 'int16'), plain(shape, 50, 'int64'), plain(shape, 99)]}
+            yield {'k': 'cat', 'any': True, 'axis': ax, 'pieces': [plain(shape)]}
+            yield {'k': 'cat', 'any': True, 'axis': ax, 'pieces': [plain(shape), plain(tuple(shape) + (2,))]}
+            yield {'k': 'cat', 'any': True, 'axis': ax, 'pieces': [plain(shape), plain(shape[:-1] + (shape[-1] + 1,), 50)]}
+            whole = _split_pieces(shape, [0, shape[-1]], -1, 2, FSS[2])
+            yield {'k': 'cat', 'any': True, 'axis': ax, 'pieces': whole, 'expect': 'ok'}                    # a single annotated piece
+            yield {'k': 'cat', 'any': True, 'axis': ax, 'pieces': whole, 'tuple': True, 'expect': 'ok'}
+            yield {'k': 'cat', 'any': True, 'axis': ax, 'pieces': [ann[0], plain(shape)]}
+            yield {'k': 'cat', 'any': True, 'axis': ax, 'pieces': [plain(shape), ann[1]]}
+        yield {'k': 'cat', 'any': True, 'pieces': ann, 'expect': 'ok'}                                       # default axis
+        yield {'k': 'cat', 'any': True, 'pieces': ann, 'tuple': True, 'expect': 'ok'}
+        yield {'k': 'cat', 'any': True, 'pieces': [plain(shape), plain(shape, 50)]}
+        # the same rate / first sample given as int, float, NumPy scalar: still the same rate
+        for kd0, kd1 in [({'fs': 'int'}, {}), ({}, {'fs': 'np', 's0': 'np'}), ({'fs': 'f32'}, {'fs': 'int', 's0': 'float'}),
+                         ({'dt': 'int16'}, {'dt': 'float32'}), ({'ro': True}, {'ro': True, 'lst': True})]:
+            ps = [dict(ann[0], kd=kd0), dict(ann[1], kd=kd1)]
+            yield {'k': 'cat', 'any': True, 'axis': -1, 'pieces': ps, 'expect': 'ok'}
+
+
 def _op_cases(tier, rng):
     ops = [['add', 1], ['radd', 3], ['mul', 2], ['neg'], ['abs'], ['copy'], ['copy2'], ['deepcopy'], ['astype', 'float32'],
            ['astype', 'int64'], ['gt', 2], ['rsub', 10], ['selfadd'], ['ndadd', 5], ['iadd', 4]]
@@ -1111,6 +1474,7 @@ def _cases(tier, rng):
         yield _get((40,), ixs, s0=-64)
     yield from _cat_cases(tier, rng)
     yield from _reject_cases(tier, rng)
+    yield from _audit_cases(tier, rng)
     yield from _op_cases(tier, rng)
 
 
